@@ -47,7 +47,7 @@ type worker struct {
 	defs  [4]*worker // runtimes whose option defaults were set with json:use-*
 	evals int64      // programs evaluated on this runtime
 
-	bound    bool   // c13-ds / c13-db / c13-dm are bound to boundDoc
+	bound    bool // c13-ds / c13-db / c13-dm are bound to boundDoc
 	boundDoc string
 }
 
